@@ -739,6 +739,148 @@ def shape_of(c):
     return c["op"] + "(" + ",".join(shape_of(c[k]) for k in ("a", "b") if k in c and c[k]["op"] != "none") + ")"
 
 
+# ---- compiler as a function of its input (C12) -----------------------------------------------------
+def check_C12(tier, seed):
+    import subprocess, tempfile, shutil, hashlib, re, glob
+    from concurrent.futures import ThreadPoolExecutor
+    t0 = time.time()
+    res = Result("C12")
+    m = lib.ensure_mirror()
+    work = tempfile.mkdtemp(prefix="c12-", dir=lib.SCRATCH)
+    try:
+        src = {}
+        rc, out, st = lib.run_tlc("MC_Mod", "", names=False)
+        for mj in lib.tlc_payload(out, "MOD"):
+            if mj["name"] in ("VE", "VA", "VI", "VC"):
+                src[mj["name"]] = Module(mj).text()
+        corpus = sorted(glob.glob(os.path.join(lib.REPO, "tests", "tests-asn1c-compiler", "*-OK.asn1"))) + \
+            sorted(glob.glob(os.path.join(lib.REPO, "examples", "*.asn1")))
+        if tier == "quick":
+            corpus = corpus[::4]
+        for f in corpus:
+            name = re.sub(r"[^A-Za-z0-9]", "x", os.path.basename(f))[:40]
+            try:
+                src["c" + name] = open(f, errors="replace").read()
+            except OSError:
+                pass
+        # the same-code clause is claimed over generated, non-parameterized modules only
+        plain = [k for k in ("VE", "VA", "VI", "VC") if k in src]
+        singles = sorted(src)
+        groups = [["VA", "VI"], ["VA", "VI", "VC"], ["VE", "VC", "VA"]]
+        q = lambda xs: "{%s}" % ", ".join('"%s"' % x for x in xs)
+        consts = ["Singles = " + q(singles), "Groups = {%s}" % ", ".join(q(g) for g in groups), "Plain = " + q(plain)]
+        _, scns, st = lib.generate("MC_Runs", consts, ["Export"], workers=2)
+        res.states += st["distinct"]
+        res.transitions += st["states"]
+        skel = set(os.listdir(m["skeletons"]))
+
+        def digest_dir(d):
+            allh, typeh = hashlib.sha256(), hashlib.sha256()
+            for fn in sorted(os.listdir(d)):
+                if fn.endswith(".asn1"):
+                    continue
+                data = open(os.path.join(d, fn), "rb").read()
+                data = b"\n".join(l for l in data.split(b"\n") if b"found in" not in l and b"`asn1c " not in l)
+                allh.update(fn.encode() + b"\0" + data)
+                if fn.endswith((".c", ".h")) and fn not in skel:
+                    typeh.update(fn.encode() + b"\0" + data)
+            return allh.hexdigest()[:16], typeh.hexdigest()[:16]
+
+        def compile_(files):
+            d = tempfile.mkdtemp(prefix="r-", dir=work)
+            for name, text in files:
+                open(os.path.join(d, name + ".asn1"), "w").write(text)
+            try:
+                r = subprocess.run([m["asn1c"], "-S", m["skeletons"], "-no-gen-example"] + [n + ".asn1" for n, _ in files], cwd=d,
+                                   stdout=subprocess.PIPE, stderr=subprocess.PIPE, timeout=120)
+                rc = r.returncode
+            except subprocess.TimeoutExpired:
+                rc = -14
+            a, t = digest_dir(d)
+            shutil.rmtree(d, ignore_errors=True)
+            if rc != 0:
+                a = t = "exit:%d" % rc
+            return rc, a, t
+
+        def print_(name, text):
+            d = tempfile.mkdtemp(prefix="p-", dir=work)
+            open(os.path.join(d, name + ".asn1"), "w").write(text)
+            try:
+                r = subprocess.run([m["asn1c"], "-E", name + ".asn1"], cwd=d, stdout=subprocess.PIPE, stderr=subprocess.PIPE, timeout=60)
+                rc, outb = r.returncode, r.stdout
+            except subprocess.TimeoutExpired:
+                rc, outb = -14, b""
+            shutil.rmtree(d, ignore_errors=True)
+            return rc, outb.decode(errors="replace")
+
+        def one(s):
+            evs = []
+            printed = {}
+            for i, op in enumerate(s["plan"]):
+                obs, sig = [], 0
+                if op["a"] == "Compile":
+                    rc, a, t = compile_([(n, src[n]) for n in op["order"]])
+                    sig = -rc if rc < 0 else 0
+                    obs = [{"key": "all:" + ",".join(op["order"]), "digest": a, "why": "same-input-different-output"},
+                           {"key": "types:" + ",".join(sorted(op["order"])), "digest": t, "why": "per-type-files-depend-on-file-order"}]
+                elif op["a"] == "Print":
+                    f = op["file"]
+                    text = src[f] if op["n"] == 1 else printed.get(1, (1, ""))[1]
+                    rc, outt = print_(f, text)
+                    sig = -rc if rc < 0 else 0
+                    printed[op["n"]] = (rc, outt)
+                    dg = hashlib.sha256(outt.encode()).hexdigest()[:16] if rc == 0 else "exit:%d" % rc
+                    if op["n"] == 2 and printed.get(1, (1, ""))[0] != 0:
+                        obs = []          # the original was not accepted: nothing to round-trip
+                    else:
+                        obs = [{"key": "text:" + f, "digest": dg, "why": "printed-text-not-accepted-or-not-a-fixpoint"}]
+                elif op["a"] == "CompilePrinted":
+                    f = op["file"]
+                    if printed.get(1, (1, ""))[0] == 0:
+                        rc, a, t = compile_([(f, printed[1][1])])
+                        sig = -rc if rc < 0 else 0
+                        obs = [{"key": "types:" + f, "digest": t, "why": "printed-module-compiles-to-different-code"}]
+                evs.append({"id": s["id"], "i": i + 1, "a": "Observe", "op": op["a"], "signal": sig, "obs": obs})
+            return evs
+        evs = []
+        with ThreadPoolExecutor(lib.NCPU) as ex:
+            for e in ex.map(one, scns):
+                evs += e
+    finally:
+        shutil.rmtree(work, ignore_errors=True)
+    mism, tot = lib.judge("MC_Runs", None, scns, evs, constants=consts, invariants=["Functional"], shards=1)
+    mism = expand(mism)
+    res.states += tot["distinct"]
+    res.transitions += tot["states"]
+    res.sessions += len(scns)
+    res.events += len(evs)
+    byid = {s["id"]: s for s in scns}
+    for s in scns:
+        res.distinct.add(json.dumps(s["plan"], sort_keys=True))
+    res.samples.append({"schedule": scns[0]["plan"], "events": [e for e in evs if e["id"] == scns[0]["id"]]})
+    known = lib.load_findings("C12")
+    for mm in mism:
+        s = byid[mm["id"]]
+        op = s["plan"][mm["i"] - 1]
+        sig = {"op": "run", "a": op["a"], "ty": op.get("file") or ",".join(op.get("order", [])), "reason": mm["reason"]}
+        f = None
+        for kf in known:
+            for alt in (kf["match"] if isinstance(kf["match"], list) else [kf["match"]]):
+                mt = dict(alt)
+                mt.pop("pred", None)
+                if mt.get("op") == "run" and lib.finding_matches({"match": mt}, sig):
+                    f = kf
+        if f:
+            res.known[f["id"]] = res.known.get(f["id"], 0) + 1
+        else:
+            res.violations.append((sig, {"property": "C12", "signature": sig, "schedule": s["plan"], "events": [e for e in evs if e["id"] == s["id"]]}))
+    res.notes["files"] = {"generated": 4, "corpus": len(src) - 4, "non_parameterized": len(plain)}
+    return finish(res, tier, seed, "model_checking", t0,
+                  "schedules enumerated by TLC: per file (universe modules VE VA VI VC and the shipped corpus tests/tests-asn1c-compiler/*-OK.asn1 + examples/*.asn1; quick: every 4th corpus file): compile twice, print, print the printed text, compile the printed text (non-parameterized files); per group of 2-3 files: every permutation of the command line; every run is a separate process under ASLR; outputs are digested per key (header lines naming the source file / command line removed)",
+                  ["MC_Runs.tla: the compiler is a function of (file order) resp. (file set) resp. (file)", "TLC, Json module, python glue (digests)",
+                   "per-type files = emitted .c/.h files that are not copies of skeleton files"])
+
+
 # ---- compiler pipeline (C10) ------------------------------------------------------------------
 C10_OPTIONS = ["-fcompound-names", "-fwide-types", "-findirect-choice", "-fno-constraints", "-no-gen-PER", "-no-gen-OER", "-fincludes-quoted"]
 
@@ -853,7 +995,7 @@ def check_C10(tier, seed):
 
 
 CHECKS = {"C01": check_C01, "C02": check_C02, "C03": check_C03, "C04": check_C04, "C05": check_C05, "C06": check_C06, "C07": check_C07, "C08": check_C08, "C14": check_C14,
-          "C09": check_C09, "C10": check_C10, "C11": check_C11, "C13": check_C13, "C16": check_C16, "C17": check_C17}
+          "C09": check_C09, "C10": check_C10, "C11": check_C11, "C12": check_C12, "C13": check_C13, "C16": check_C16, "C17": check_C17}
 
 
 def replay(prop, path):
